@@ -1012,6 +1012,10 @@ func c10(c *an.Ctx) {
 		}
 	})
 
+	c.Check("R-TABLE", "makeBatchQuery's clause renderer, evaluated for every (value is nil, values written so far, nil seen) assignment, emits exactly the fragments and arguments of the IN / IS / AND forms", 2, func(o *an.O) {
+		ruleBatchClauseTable(c, o)
+	})
+
 	c.Check("R-SIBLING", "NULL filter values are rendered with the IS form by both the unbatched and the batched renderer (an '= ?' / 'IN (?)' placeholder is only written for a non-nil value)", 4, func(o *an.O) {
 		for _, nm := range []string{"makeBatchQuery", "(*SimpleWhere).ToSQL"} {
 			fn := c.NeedFunc(sg, nm)
